@@ -17,31 +17,52 @@ def lengths(rng, bs, w, tier):
     return [l for l in base if l >= bs]
 
 
+def one_case(rng, name, kind, cfg, L, enc_ip, dec_ip):
+    bs, w, dm = cfg
+    variant = int(kind[-1])
+    key = rbytes_n(rng, 8)
+    iv = rbytes_n(rng, bs) if kind.startswith("cbc") else b""
+    msg = rbytes_n(rng, L)
+    tc = oracle.Toy(key, dm)
+    c = Case(name, "cts", bs, w, dm, tags=dict(variant=kind, residue=("0" if L % bs == 0 else "partial"),
+                                                nblocks=min(-(-L // bs), 9), width=("1" if w == 1 else ">1"),
+                                                enc=("ip" if enc_ip else "b2b"), dec=("ip" if dec_ip else "b2b")))
+    c.op("new o %s %s %s %s" % (kind, rng.choice(["new", "inner", "slices"]), hx(key), hx(iv)))
+    e = c.op("cts_enc o ip %s" % hx(msg)) if enc_ip else c.op("cts_enc o b2b %s %s" % (hx(msg), hx(rbytes_n(rng, L))))
+    exp = oracle.cts_cbc(tc, iv, msg, variant) if kind.startswith("cbc") else oracle.cts_ecb(tc, msg, bs, variant)
+    c.expect("%s ciphertext equals the SP 800-38A Addendum layout" % kind, lambda r, e=e, exp=exp: rbytes(r[e]) == exp)
+    if dm == "inv":
+        # decrypt the *standard's* ciphertext: an implementation whose encryptor and decryptor are wrong
+        # in mirrored ways does not get away with it
+        d = c.op("cts_dec o ip %s" % hx(exp)) if dec_ip else c.op("cts_dec o b2b %s %s" % (hx(exp), hx(rbytes_n(rng, L))))
+        c.expect("%s decryption of the standard's ciphertext returns the message" % kind, lambda r, d=d, msg=msg: rbytes(r[d]) == msg)
+    return c
+
+
+# the grid that runs first: every variant x (serial, parallel backend) x (partial tail after >= 3 blocks, whole blocks,
+# across a parallel group) x in place / buffer-to-buffer for both directions.  In-place runs alias input and output, so a
+# body that reads its input after writing the output is only wrong there; serial backends take the other branch of the
+# `ParBlocksSize > 1` guards.
+GRID_CFGS = [(8, 1, "inv"), (5, 3, "inv"), (16, 2, "inv")]
+
+
 def generate(rng, tier):
     cases = []
+    for kind in CTS_KINDS:
+        for cfg in GRID_CFGS:
+            bs, w, _ = cfg
+            for L in (3 * bs + rng.randint(1, bs - 1), 4 * bs, (2 * w + 1) * bs + rng.randint(1, bs - 1)):
+                for enc_ip in (True, False):
+                    for dec_ip in (True, False):
+                        cases.append(one_case(rng, "c05_g%d" % len(cases), kind, cfg, L, enc_ip, dec_ip))
     n = 180 if tier == "quick" else 4000
     for i in range(n):
-        bs, w, dm = pick_cfg(rng, CTS_CFGS, i // 12)
+        cfg = pick_cfg(rng, CTS_CFGS, i // 12)
+        bs, w, dm = cfg
         kind = CTS_KINDS[i % 6]
-        variant = int(kind[-1])
-        key = rbytes_n(rng, 8)
-        iv = rbytes_n(rng, bs) if kind.startswith("cbc") else b""
         ls = lengths(rng, bs, w, tier)
         L = ls[(i // 6) % len(ls)] if i < 6 * len(ls) * 2 else rng.choice(ls)
-        msg = rbytes_n(rng, L)
-        tc = oracle.Toy(key, dm)
-        c = Case("c05_%d" % i, "cts", bs, w, dm, tags=dict(variant=kind, residue=("0" if L % bs == 0 else "partial"),
-                                                            nblocks=min(-(-L // bs), 9)))
-        c.op("new o %s %s %s %s" % (kind, rng.choice(["new", "inner", "slices"]), hx(key), hx(iv)))
-        e = c.op("cts_enc o ip %s" % hx(msg)) if rng.random() < 0.5 else c.op("cts_enc o b2b %s %s" % (hx(msg), hx(rbytes_n(rng, L))))
-        exp = oracle.cts_cbc(tc, iv, msg, variant) if kind.startswith("cbc") else oracle.cts_ecb(tc, msg, bs, variant)
-        c.expect("%s ciphertext equals the SP 800-38A Addendum layout" % kind, lambda r, e=e, exp=exp: rbytes(r[e]) == exp)
-        if dm == "inv":
-            # decrypt the *standard's* ciphertext: an implementation whose encryptor and decryptor are wrong
-            # in mirrored ways does not get away with it
-            d = c.op("cts_dec o ip %s" % hx(exp)) if rng.random() < 0.5 else c.op("cts_dec o b2b %s %s" % (hx(exp), hx(rbytes_n(rng, L))))
-            c.expect("%s decryption of the standard's ciphertext returns the message" % kind, lambda r, d=d, msg=msg: rbytes(r[d]) == msg)
-        cases.append(c)
+        cases.append(one_case(rng, "c05_%d" % i, kind, cfg, L, rng.random() < 0.5, rng.random() < 0.5))
     return cases
 
 
